@@ -13,6 +13,21 @@ COMMON_NOTE = (
 )
 
 CLAIMED = {
+    "C01": dict(
+        text="Lean theorems, for EVERY parameter file / names file / canonical-name list: apply_force_field returns as found exactly the atoms the map answers, each with exactly the map's charge and radius, and as missing exactly the others (nothing defaulted, borrowed, lost, duplicated); "
+        "every entry of the final map is field-for-field a row of the parameter file; last row wins; the documented semantics of residue-rename and atom-alias sections; terminus/state naming priorities. "
+        "DAT rows, .names sections (Python regexes translated to a Regex AST) and canonical names are regenerated from /repo each run; the six maps the Lean model builds from them are compared with the real Forcefield.map exhaustively, "
+        "plus generated parameter/names pairs and end-to-end runs (every atom's assigned parameters, hit/miss and PQR columns vs state naming + lookup).",
+        note="translators gen/ff.py, gen/topology.py (cross-checked against the real objects every run); expat/SAX (handler view compared with etree view); '$' before a trailing newline not modelled",
+        ref="DESIGN.md §4 C01",
+    ),
+    "C13": dict(
+        text="Lean theorems about a model of update_ss_bridges (the nested dictionary loops, numpartners==1 rule): two sulfurs close to each other and to no third one become each other's single partner whatever their position in the residue list and whatever else is in the structure; "
+        "a sulfur with nothing in range is untouched (keeps HG, CYS parameters); the outcome of an isolated pair is invariant under every permutation of the residue list; the geometric test is symmetric; the limit regenerated from config.py is 2.5. "
+        "Model tied to the real pipeline on fragments placed rigidly at controlled SG-SG distances (typical, just inside/outside the limit, far, third sulfur, both file orders, same/different chains).",
+        note="float norm within 1e-6 of the limit not modelled; coordinates with three decimals so squared distances are exact",
+        ref="DESIGN.md §4 C13",
+    ),
     "C07": dict(
         text="Lean theorems about a model of read_pdb + Biomolecule.__init__ + residue constructors + drop_water: no ATOM/HETATM line skipped whatever surrounds it, "
         "trailing-column cuts parse identically, grouping is a permutation of the first model's atoms for every placement of TER/END/MODEL/other records, "
